@@ -104,7 +104,10 @@ def evaluate(
 
   stdout = io.StringIO()
   with contextlib.redirect_stdout(stdout):
-    if hasattr(code_block.body[-1], 'value'):   # pytype: disable=attribute-error
+    # Only an expression or a plain assignment yields the value of the last
+    # line; other statements that carry a `value` field (augmented/annotated
+    # assignments, type aliases) must be executed as statements.
+    if isinstance(code_block.body[-1], (ast.Expr, ast.Assign)):   # pytype: disable=attribute-error
       last_expr = code_block.body.pop()  # pytype: disable=attribute-error
       result_vars = [RESULT_KEY]
 
